@@ -317,7 +317,7 @@ func cmdRun(args []string) int {
 			okk := out.Outcome == "pass" && sameObs(out.Observes, s.Observes)
 			// harnesses that run the library's real timers or goroutines natively can be
 			// disturbed by a loaded machine: a disagreement counts only if it repeats
-			for retry := 0; !okk && retry < 2 && (r.spec.Goroutines || r.spec.VirtualTime); retry++ {
+			for retry := 0; !okk && retry < 2; retry++ {
 				out = nat.Run(bin, rc, 30*time.Second)
 				ev.NativeReplays++
 				okk = out.Outcome == "pass" && sameObs(out.Observes, s.Observes)
